@@ -91,12 +91,12 @@ def run_one(tape: Any, cfg: Dict[str, Any], forbid: FrozenSet[str] = frozenset()
         # origins: one per distinct address; every response names the origin and echoes nothing else
         addrs = sorted({a for _, a in URLS} | {('10.0.5.9', 8080)})
         origins: Dict[Tuple[str, int], Any] = {}
-        resp_by_origin: Dict[Tuple[str, int], List[bytes]] = {}
+        resp_by_conn: Dict[int, List[bytes]] = {}
         for a in addrs:
             def mk(a: Tuple[str, int]) -> Any:
                 def responder(peer: Any, info: Dict[str, Any]) -> List[Any]:
                     r, m = gen_response(tape, g, 200, tag=('%s:%d' % a).encode(), allow_interim=False)
-                    resp_by_origin.setdefault(a, []).append(r)
+                    resp_by_conn.setdefault(id(peer), []).append(r)
                     return [('send', r, 'burst')]
                 return Origin(w, a[0], a[1], lambda i: [('serve', responder, 5), ('wait_eof',), ('close',)],
                               name='%s:%d' % a)
@@ -115,7 +115,7 @@ def run_one(tape: Any, cfg: Dict[str, Any], forbid: FrozenSet[str] = frozenset()
                 if hits:
                     path = hits[tape.draw(len(hits), 'aim-path')]
             raw, meta = gen_request(tape, g, form='origin', host=b'public.example', max_body=cfg['max_body'],
-                                    path=path.encode(), allow_http10=False,
+                                    path=path.encode(), allow_http10=False, extra=[(b'X-Conn', b'c%d' % k)],
                                     methods=[b'GET', b'POST', b'PUT', b'DELETE', b'PATCH', b'OPTIONS'])
             cuts = gen_cuts(tape, len(raw), meta['marks'])
             matching = [r for r in table if re.compile(r if isinstance(r, str) else r[0]).match(path)]
@@ -194,22 +194,26 @@ def run_one(tape: Any, cfg: Dict[str, Any], forbid: FrozenSet[str] = frozenset()
                     w.probe('dynamic_literal')
                     continue
                 # exactly one outbound connection for this request, to a candidate
-                if ci >= len(clog):
-                    w.fail('not_forwarded', sig, 'path %r matches %r but no outbound connection was made; client got %r'
-                           % (cn['path'], [r if isinstance(r, str) else r[0] for r in cn['matching']], rx[:80]))
+                # find the upstream connection that carries this client connection's marker header (connections may
+                # overtake one another, so order proves nothing)
+                marker = b'c%d' % k
+                found = [(a, i) for a, o in origins.items() for i, oc in enumerate(o.conns)
+                         if (b'X-Conn: ' + marker + b'\r\n') in bytes(oc.rx) or (b'X-Conn:' + marker + b'\r\n') in bytes(oc.rx)
+                         or re.search(rb'(?i)x-conn:[ \t]*' + marker + rb'[ \t]*\r\n', bytes(oc.rx))]
+                if not found:
+                    w.fail('not_forwarded', sig, 'path %r matches %r but no upstream received the request; client got %r; connect log %r'
+                           % (cn['path'], [r if isinstance(r, str) else r[0] for r in cn['matching']], rx[:80], clog[:4]))
                     break
-                tgt = (clog[ci][0], clog[ci][1])
+                if len(found) > 1:
+                    w.fail('forwarded_twice', sig, 'request of connection %d reached %d upstream connections: %r' % (k, len(found), found))
+                    break
+                tgt, idx = found[0]
                 ci += 1
-                if clog[ci - 1][2] != 'ok' or tgt not in [a for _, a in cn['cands']]:
-                    w.fail('wrong_upstream', sig, 'path %r: connected to %r (%s); URLs of the matching routes: %r'
-                           % (cn['path'], tgt, clog[ci - 1][2], [u for u, _ in cn['cands']]))
+                if tgt not in [a for _, a in cn['cands']]:
+                    w.fail('wrong_upstream', sig, 'path %r: forwarded to %r; URLs of the matching routes: %r'
+                           % (cn['path'], tgt, [u for u, _ in cn['cands']]))
                     break
                 o = origins[tgt]
-                idx = served_per_origin.get(tgt, 0)
-                served_per_origin[tgt] = idx + 1
-                if idx >= len(o.conns):
-                    w.fail('not_forwarded', sig, 'origin %r has no connection #%d' % (tgt, idx))
-                    break
                 orx = bytes(o.conns[idx].rx)
                 pr = h11_parse_requests(orx)
                 if pr['error'] or len(pr['requests']) != 1 or not pr['requests'][0]['complete']:
@@ -255,7 +259,8 @@ def run_one(tape: Any, cfg: Dict[str, Any], forbid: FrozenSet[str] = frozenset()
                 if r['body'] != meta['body']:
                     w.fail('wrong_body', sig + ':' + meta['framing'], 'decoded body differs (%d vs %d bytes)' % (len(r['body']), len(meta['body'])))
                     break
-                sent = resp_by_origin.get(tgt, [])
+                sent = resp_by_conn.get(id(o.conns[idx]), [])
+                idx = 0
                 if cn['followup'] and idx < len(sent):
                     if rx != sent[idx] + bytes(LIT):
                         w.fail('followup_literal_wrong', sig, 'second request on the connection matches the literal route: client must get '
@@ -268,7 +273,7 @@ def run_one(tape: Any, cfg: Dict[str, Any], forbid: FrozenSet[str] = frozenset()
                     w.probe('dynamic_url')
                 w.probe('routed_right')
             if not w.failures and ci != len(clog):
-                w.fail('extra_connection', 'c12', 'outbound connections not accounted for by any request: %r' % clog[ci:ci + 3])
+                w.fail('extra_connection', 'c12', '%d outbound connection attempts for %d routed requests: %r' % (len(clog), ci, clog[:6]))
         res.nontrivial = nontrivial
         res.features = g.features
         res.states = states
